@@ -15,7 +15,7 @@ class C13(Prop):
     named_errors = set()     # the statement names no error kind: errors agree by class
     pid = "C13"
     title = "version information is reported completely and unaltered"
-    thm_modules = ["PeliteModel.Thm.C13", "PeliteModel.Thm.C13Queries", "PeliteModel.Thm.C13Source", "PeliteModel.Thm.ImageLayout", "PeliteModel.Thm.C13Layout", "PeliteModel.Thm.Witnesses64"]
+    thm_modules = ["PeliteModel.Thm.C13", "PeliteModel.Thm.C13Queries", "PeliteModel.Thm.C13Source", "PeliteModel.Thm.C13WFmt", "PeliteModel.Thm.ImageLayout", "PeliteModel.Thm.C13Layout", "PeliteModel.Thm.Witnesses64"]
     gens = [gen_version.gen_wellformed, gen_version.gen_layouts, gen_version.gen_variants, gen_version.gen_bytecounted,
             gen_version.gen_corrupt, gen_version.gen_small, gen_version.gen_langparse, gen_version.gen_zero_records]
 
